@@ -59,6 +59,20 @@ def diameterSq (v0 v1 v2 : V3 K) : K :=
   let n := normalDir v0 v1 v2
   dot a a * dot b b * dot (vsub a b) (vsub a b) / dot n n
 
+/-- corner `k` of a triangle given by its three points -/
+def pick (v0 v1 v2 : V3 K) : Nat → V3 K
+  | 0 => v0
+  | 1 => v1
+  | _ => v2
+
+/-- the point denoted by a vertex code of `Gen.GridConsts` in the triangle `(v0, v1, v2)`: a corner, the midpoint of
+the local edge `_EDGE_LOCAL[l]`, or the barycentre -/
+def codePoint (v0 v1 v2 : V3 K) (code : GridConsts.Code) : V3 K :=
+  match code.1 with
+  | 0 => pick v0 v1 v2 code.2
+  | 1 => midpoint (pick v0 v1 v2 (localEdge code.2).1) (pick v0 v1 v2 (localEdge code.2).2)
+  | _ => centroid v0 v1 v2
+
 /-- coordinates of vertex `i` (zero where the code would raise IndexError) -/
 def vert (V : List (V3 K)) (i : Nat) : V3 K := V.getD i vzero
 
@@ -77,6 +91,12 @@ def baryCoord (V : List (V3 K)) (els : List Tri) : BaryVertex → V3 K
 /-- `_create_barycentric_connectivity_array`: the new vertex array -/
 def baryVerts (V : List (V3 K)) (els : List Tri) : List (V3 K) :=
   V ++ (baryNewVertices V.length els).map (baryCoord V els)
+
+/-- `union`: the vertex arrays are concatenated -/
+def unionVerts (Vs : List (List (V3 K))) : List (V3 K) := Vs.flatten
+
+/-- `grid_from_segments`: `new_vertices = grid.vertices[:, vertex_indices]` -/
+def segmentVerts (V : List (V3 K)) (vidx : List Nat) : List (V3 K) := vidx.map (vert V)
 
 end
 
